@@ -31,7 +31,10 @@ def correct_wants(groups, ref, j, since):
     return c
 
 
-def corrupt(want, how, stale=''):
+def corrupt(want, how, stale='', stale_value=None):
+    if how == 'stalevalue':
+        # the value of an EARLIER expression statement is not what this statement produced
+        return stale_value
     if how == 'stale':
         # output already consumed by the PREVIOUS want is no longer eligible
         if not stale.strip():
@@ -51,7 +54,7 @@ def corrupt(want, how, stale=''):
     raise KeyError(how)
 
 
-CORRUPTIONS = ['replaced', 'appended', 'prepended', 'dropped', 'stale']
+CORRUPTIONS = ['replaced', 'appended', 'prepended', 'dropped', 'stale', 'stalevalue']
 
 
 def build_c02(kinds, styles, want_choice, corruption, rng=None, sep_prob=0.0):
@@ -90,7 +93,8 @@ def build_c02(kinds, styles, want_choice, corruption, rng=None, sep_prob=0.0):
         j, how = corruption
         if groups[j].want is None:
             return None
-        cw = corrupt(groups[j].want, how, stale.get(j, ''))
+        earlier = [g.val for g, r in zip(groups[:j], ref) if r['runs'] and g.is_expr and g.val not in (None, 'RAISES', 'None')]
+        cw = corrupt(groups[j].want, how, stale.get(j, ''), earlier[-1] if earlier else None)
         if cw is None:
             return None
         if cw.strip() in legit[j]:
